@@ -291,6 +291,24 @@ func derived3(s *meshState3) (which, problem string) {
 			return "IterateSorted", fmt.Sprintf("IterateSorted visited pool positions %v: not the mesh's faces in descending order", seen)
 		}
 	}
+	// IterateVertices while the callback edits the mesh: "if f adds or removes vertices, they will not be visited".
+	// The first visited vertex removes every face; nothing is left to visit after it, in whatever order vertices come.
+	if len(s.ref) > 0 {
+		cp := s.m.Copy()
+		visits, stale := 0, 0
+		cp.IterateVertices(func(c model3d.Coord3D) {
+			visits++
+			if len(cp.Find(c)) == 0 {
+				stale++
+			}
+			for _, t := range cp.TriangleSlice() {
+				cp.Remove(t)
+			}
+		})
+		if visits != 1 || stale != 0 {
+			return "IterateVertices", fmt.Sprintf("IterateVertices visited %d vertices (%d of them without a face at that moment) although the first visit removed every face", visits, stale)
+		}
+	}
 	// the original must be unchanged by all of the above
 	if p := meshq.Check3(s.m, s.ref, s.pool.verts, s.pool.faces); p != "" {
 		return "original-after-derived", "original mesh changed by a mesh-returning method: " + p
